@@ -38,6 +38,12 @@ var acceptGates = []GateSpec{
 		},
 	},
 	{
+		// check-then-act: the height the index is compared with is read inside the critical section that also stores
+		// the block, otherwise two callers holding the same next block both pass the test and both store it
+		ID: "AddBlock.height-under-lock", Fn: [3]string{"pkg/core", "Blockchain", "AddBlock"}, Target: "call:" + symBlockHeight,
+		MustNode: [][]string{{"sync.(*Mutex).Lock", "pkg/core#addLock"}},
+	},
+	{
 		ID: "AddBlock.storeBlock.verified", Fn: [3]string{"pkg/core", "Blockchain", "AddBlock"}, Target: "call:" + symStoreBlock,
 		Assume: symAssume(cfgSkipVerify, false),
 		Guards: []Guard{
